@@ -158,6 +158,28 @@ def run_check(pid, tier, replay=None):
             trans += res4.generated
             runs.append({"universe": "one struct with one leaf, one-letter field names", "distinct_states": res4.distinct, "cases": len(cs4), "exhaustive": True})
             cases += cs4
+        if pid == "C11":
+            # (f) field names and tags with non-ASCII lower-case letters (CaféTable -> CAFÉ_TABLE): TLA+ strings are ASCII, so the
+            # model runs over placeholder words which are replaced in the emitted cases
+            d = scratch.sub("srcf")
+            write_model(d, ["int", "strs"], ["none", "snake"], ["struct", "pstruct"], 1, 1, False, False,
+                        names=[["cafe", "table"], ["senal"], ["salon"]])
+            res6 = C.run_tlc(d, "MCSources", "S.cfg", timeout=3000)
+            sub = {"cafe": "caf\u00e9", "senal": "se\u00f1al", "salon": "sal\u00f3n"}
+
+            def nonascii(x):
+                if isinstance(x, str):
+                    return sub.get(x, x)
+                if isinstance(x, list):
+                    return [nonascii(y) for y in x]
+                if isinstance(x, dict):
+                    return {k: nonascii(v) for k, v in x.items()}
+                return x
+            cs6 = [nonascii(c) for c in cases_of(res6.out)]
+            states += res6.distinct
+            trans += res6.generated
+            runs.append({"universe": "one field or one struct with one leaf, names with non-ASCII letters", "distinct_states": res6.distinct, "cases": len(cs6), "exhaustive": True})
+            cases += cs6
         todo = []
         for c in cases:
             c["seed"] = rng.randrange(1000)
